@@ -36,6 +36,9 @@ def plan(tier, seed):
                                    "partial": [None, None, None, "initial_one", "initial_nonneg", "final_one"][k % 6],
                                    "identical_scalars": k % 7 == 0},
                       "cfg_seed": int(rng.integers(1 << 30)), "cfg_index": k % 4, "numeric": k % (6 if tier == "quick" else 10) == 0, "cost": 2.0})
+    for k in range(40 if tier == "quick" else 600):
+        cases.append({"reaction": {"kind": "synth_multi", "seed": int(rng.integers(1 << 30)), "formalism": ["helicity", "canonical-helicity"][k % 2]},
+                      "cfg_seed": int(rng.integers(1 << 30)), "cfg_index": k % 3, "numeric": k % 8 == 0, "cost": 2.0})
     return cases
 
 
@@ -62,6 +65,12 @@ def make_reaction(desc):
     from vmon.workloads import reactions as R
     if desc["kind"] == "fixture":
         return R.load_fixture(desc["name"]), desc["name"]
+    if desc["kind"] == "synth_multi":
+        for attempt in range(10):
+            r = R.synth_multi_topology_general(desc["seed"] + attempt, desc.get("formalism", "helicity"))
+            if r is not None:
+                return r, f"synth_multi:{desc['seed']}:{attempt}"
+        return None, None
     rng = np.random.default_rng([desc["seed"]])
     for attempt in range(30):
         spec = R.synth_spec(rng, formalism=desc["formalism"], partial=desc.get("partial"), identical_scalars=desc.get("identical_scalars", False),
@@ -93,6 +102,7 @@ def run_case(case, rec, ctx):
         cfg["permutate"] = False
     rfeat = reaction_features(reaction)
     feats = {**rfeat, "align": cfg["align"], "stable": cfg["stable"] is not None, "scalar_mass": cfg["scalar_mass"],
+             "axisangle_with_massless_spinful_particle": cfg["align"] == "axisangle" and any(p.mass == 0 and p.spin > 0 for p in reaction.final_state.values()),
              "couplings": cfg["couplings"], "permutate": cfg["permutate"], "has_dynamics": bool(cfg["dynamics"])}
     ctx["feats"] = feats
     ctx["label"] = f"{rname} [{C.config_key(cfg)}]"
